@@ -17,12 +17,16 @@ from lib.common import cps
 PROP = 'C14'
 LEVEL = 'proof'
 PROPS_MODULES = ['RTV.Props.C14']
-GEN = ['timexregex']
+GEN = ['timexregex', 'timexenglish']
 REQUIRED_THEOREMS = ['genCfg_ok', 'parse_format_fields', 'format_idempotent', 'canonical_fixed', 'tree_roundtrip',
                      'from_date_canonical', 'from_date_time_canonical', 'from_time_canonical', 'format_parse',
                      'duration_int_format', 'duration_examples', 'repaired_roundtrips', 'tiny_amount_not_stable',
                      'parse_dur', 'format_dur', 'duration_int_roundtrip', 
-                     'parse_dur_frac', 'format_dur_dec', 'duration_frac_roundtrip']
+                     'parse_dur_frac', 'format_dur_dec', 'duration_frac_roundtrip',
+                     # functions of the package outside the parse/format property (characterisation only)
+                     'genEng_facts', 'convert_time_12h', 'english_date_suffix', 'to_string_week_not_implemented',
+                     'set_to_string_always_raises', 'convert_date_keyerror', 'creator_yesterday', 'infer_date_forms',
+                     'infer_time_forms']
 RULE = ('every TimexRegex pattern x boundary years (0001/0999/1000/1999/2000/9999 + seeded) x all months / boundary '
         'days / weeks 00-54 / weekdays 0-9 / hours 00-25 / minutes, seconds 00,01,30,59,60; durations with integer '
         'and fractional amounts (0, .5, 1.50, 0010, 1E-7 form); date x time and date x part-of-day combinations; '
@@ -409,6 +413,67 @@ def check_corpus(ctx):
                                      'kind': r['kind'], 'expected_fields': r['fields'], 'observed': rt}, property_fails=True)
 
 
+# ---------------------------------------------------------------- package functions OUTSIDE the C14 property
+
+def check_convert(ctx):
+    """`Timex.to_string`, `Timex.to_natural_language(reference)`, `convert_timex_set_to_string`, `TimexCreator.*` — not part
+    of the parse/format property (nor of C15): unit correspondence of RTV.Model.TimexConvert only, a disagreement is a
+    correspondence break without a property verdict.  (What these functions compute, including their oddities — 'May2020',
+    '11st', NotImplementedError for every ISO week, KeyError in convert_date for days >= 10 — is characterised by the
+    theorems of the section "outside the property" of Props/C14.lean.)"""
+    r = ctx.rng('convert')
+    strs = ['', 'garbage', 'PRESENT_REF', 'XXXX-WXX-0', 'XXXX-WXX-8', 'XXXX-13-01', 'XXXX-00-01', '2020-02-30', 'T24', 'T99',
+            '(2020-01-01,x,P4D)', '(T08,T12,PT4H)', '(2020-01-01T05,x,PT2H)', 'P1.5Y', 'P0W', 'P1D', 'PT1H', 'PT1M', 'PT1S',
+            'P1W', 'P1M', 'P1Y', 'P2D', 'P10Y', '2020-W05', '2020-W05-WE', 'XXXX-05-W02', 'XXXX-05-W05', 'XXXX-05-W00',
+            'XXXX-05-WXX-2-3', '0000', '0000-05', 'XXXX-WXX-3TEV', 'XXXX-05-06TNI']
+    for y in ('2019', '2020', '2021', '0001', '9999'):
+        strs += [y, y + '-SU', y + '-WI', y + '-W01', y + '-W53-WE']
+        for m in (1, 2, 5, 12):
+            strs.append('%s-%02d' % (y, m))
+            for d in (1, 2, 3, 4, 9, 10, 11, 12, 13, 21, 22, 23, 28, 31):
+                strs.append('%s-%02d-%02d' % (y, m, d))
+    for m in range(0, 14):
+        strs.append('XXXX-%02d' % m)
+        for d in (1, 2, 3, 11, 12, 13, 20, 21, 30, 31):
+            strs.append('XXXX-%02d-%02d' % (m, d))
+    for w in range(0, 10):
+        strs.append('XXXX-WXX-%d' % w)
+    for se in SEASONS:
+        strs.append(se)
+    times = ['T%02d' % h for h in range(0, 25)] + ['T%02d:%02d' % (h, m) for h in (0, 1, 11, 12, 13, 23) for m in (0, 5, 30, 59)] + \
+            ['T%02d:%02d:%02d' % (h, m, sec) for h in (0, 12, 17) for m in (0, 7) for sec in (0, 5, 59)]
+    strs += times + ['T' + p for p in PODS]
+    for dpart in ('2020-01-15', '2020-01-05', 'XXXX-05-06', 'XXXX-WXX-3', '2020-01-14', '2020-01-16', '2020-01-20'):
+        strs += [dpart + t for t in times[::6]] + [dpart + 'T' + p for p in PODS]
+    strs = list(dict.fromkeys(strs))
+    ops = [('tostr', x) for x in strs] + [('settostr', x) for x in strs[:40]]
+    refs = [(2020, 1, 15, 0), (2020, 1, 15, 36000), (2020, 1, 14, 0), (2020, 1, 16, 0), (2020, 1, 13, 0), (2020, 1, 19, 0),
+            (2020, 1, 20, 0), (2020, 1, 8, 3600), (2020, 1, 22, 0), (2019, 12, 30, 0), (2021, 1, 1, 0), (2020, 12, 31, 86399),
+            (2019, 6, 1, 0), (2021, 2, 1, 0), (2020, 2, 3, 0), (9999, 12, 31, 0), (1, 1, 3, 0)]
+    sel = strs if ctx.thorough else [x for i, x in enumerate(strs) if i % 3 == 0 or x.startswith('2020-01') or x.startswith('2020-W')]
+    for ref in refs:
+        ops += [('torel', x) + ref for x in sel]
+    days = [(2020, 1, 15), (2020, 1, 13), (2020, 1, 19), (2020, 12, 31), (2021, 1, 1), (2020, 2, 29), (1, 1, 1), (1, 1, 9),
+            (9999, 12, 31), (9999, 12, 20)] + [(r.randint(1900, 2100), r.randint(1, 12), r.randint(1, 28)) for _ in range(60)]
+    for name in ('yesterday', 'week_from_today', 'week_back_today', 'this_week', 'next_week', 'last_week'):
+        ops += [('creator', name) + dt for dt in days]
+    ops += [('creator', 'next_weeks_from_today') + dt + (n,) for dt in days[:20] for n in (0, 1, 2, 10)]
+    impl = tc.run_ops(ops)
+    model = tc.drive([tc.line_of(o) for o in ops])
+    for o, a, b in zip(ops, impl, model):
+        ctx.count('outside-property:' + o[0])
+        if a.startswith('S') and len(a) > 1:
+            ctx.nontriv(('conv',) + tuple(map(str, o)))
+        if b == 'unmodelled':
+            ctx.extra['unmodelled_answers_convert'] = ctx.extra.get('unmodelled_answers_convert', 0) + 1
+        elif a != b:
+            tc.report(ctx, 'correspondence', 'convert-' + o[0],
+                      '%r: implementation %s ; model %s (function outside the C14 property: no property verdict)' % (
+                          o, common.uncps(a[1:]) if a.startswith('S') else a, common.uncps(b[1:]) if b.startswith('S') else b),
+                      failing_input={'op': o[0], 'args': o[1:], 'implementation': a, 'model': b})
+    ctx.sample({'op': ops[5], 'implementation': impl[5]})
+
+
 def classify(fam, s, tag, v):
     """stable signature of a failed round trip"""
     if fam == 'monthweek' or tag == 'monthweek' or re.match(r'^XXXX-\d\d-W\d\d$', s):
@@ -447,6 +512,7 @@ def _correspond(ctx):
         ctx.notes.append('pattern not expressible by the flat matcher (model runs a never-matching pattern instead): %s %r (%s)' % (fam, text, why))
     check_field_grid(ctx)
     check_corpus(ctx)
+    check_convert(ctx)
     cases = grammar(ctx) + noise(ctx) + tree_grammar(ctx, 400 if ctx.thorough else 60)
     # distinct strings, first family wins
     seen = {}
